@@ -597,6 +597,18 @@ func c11Preds() []*ref.Expr {
 		ref.Bin("&", ref.In(k(), s("a"), s("b"), s("ab")), ref.Bin("^=", k(), s("a"))),
 		ref.Bin("|", eq("a"), ref.Bin("=", v(), s("x"))),
 		ref.Bin("|", ref.Bin("&", eq("a"), ref.Bin("=", v(), s("1"))), eq("b")),
+		// a literal key set cut by further key-only conditions whose bound is one of the listed keys
+		ref.Bin("&", ref.In(k(), s("a"), s("ab"), s("b")), ref.Bin(">", k(), s("a"))),
+		ref.Bin("and", ref.In(k(), s("a"), s("ab"), s("b")), ref.Bin("<", k(), s("b"))),
+		ref.Bin("&", ref.In(k(), s("a"), s("ab"), s("b"), s("2")), ref.Bin("<", s("a"), k())),
+		ref.Bin("&", ref.Bin(">", k(), s("ab")), ref.In(k(), s("ab"), s("b"))),
+		ref.Bin("&", ref.Bin("|", eq("a"), eq("b")), ref.Bin(">=", k(), s("b"))),
+		ref.Bin("&", ref.In(k(), s("a"), s("b"), s("2")), ref.Btw(k(), s("a"), s("ab"))),
+		ref.Bin("&", ref.In(k(), s("a"), s("ab")), ref.Bin("!=", k(), s("a"))),
+		ref.Bin("&", ref.In(k(), s("a"), s("ab")), ref.Not(eq("a"))),
+		ref.Bin("&", ref.Bin("&", ref.In(k(), s("a"), s("ab"), s("b")), ref.Bin(">", k(), s("a"))), ref.Bin("<", k(), s("b"))),
+		ref.Bin("&", ref.In(k(), s("a"), s("ab"), s("b")), ref.Bin("^=", s("ab"), k())),
+		ref.Bin("&", ref.In(k(), s("a"), s("ab"), s("b")), ref.In(k(), s("ab"), s("b"), s("zz"))),
 		ref.Bin("^=", k(), s("a")), ref.Bin("^=", k(), s("ab")), ref.Bin("^=", k(), s("")), ref.Bin("^=", k(), s("z")),
 		ref.Bin(">", k(), s("a")), ref.Bin(">=", k(), s("ab")), ref.Bin("<", k(), s("b")), ref.Bin("<=", k(), s("a")),
 		ref.Bin(">", s("b"), k()), ref.Bin("<=", s("ab"), k()),
@@ -673,7 +685,7 @@ func runWriteCase(r *core.Reporter, c *wcase) {
 	r.Observed(obs)
 }
 
-func (c11) Replay(data json.RawMessage) *core.Failure   { return replayWrite("C11", data) }
+func (c11) Replay(data json.RawMessage) *core.Failure       { return replayWrite("C11", data) }
 func (c11) Simplify(data json.RawMessage) []json.RawMessage { return simplifyWrite(data) }
 
 // ---- C12 ---------------------------------------------------------------------
